@@ -66,6 +66,8 @@ def run(ctx):
                          "reference_outcomes.json": json.dumps(sorted(refset), indent=1), "explored_outcomes.json": json.dumps(sorted(got), indent=1),
                          "simgrid-mc.out": r["out"][-6000:]}
                 sig = "C38:%s:%s:%s" % (red, cname, vlib.canon_hash(progs[i]))
+                if M.has_rand(progs[i]) and red in ("sdpor", "odpor"):
+                    sig = "C38:mc-random:%s:incomplete" % red       # known finding: ODPOR / SDPOR mishandle MC_random (see explore_all)
                 if r["timeout"]:
                     ctx.cov["mc_timeouts"] = ctx.cov.get("mc_timeouts", 0) + 1
                     continue
